@@ -220,6 +220,9 @@ func GenerateVC(g *Gen, fn *ssa.Function, ct *Contract) (vc *FnVC) {
 			vc.assume(Eq(st.Get(g, "G:"+n), g.constTerm(cg[n])))
 		}
 	}
+	for _, n := range sortedKeys(g.nonNilGlob) {
+		vc.assume(Not(Eq(st.Get(g, "G:"+n), IntLit(0))))
+	}
 	// package invariants and preconditions
 	for _, c := range vc.g.spec.pkgInvariants() {
 		e2 := *env
